@@ -1617,14 +1617,14 @@ class UTPM(Ring, RawAlgorithmsMixIn):
 
     @classmethod
     def zeros(cls, shape, dtype=None):
-        if not isinstance(dtype, self.__class__):
+        if not isinstance(dtype, cls):
             raise NotImplementedError('dtype must be a UTPM object')
         D,P = dtype.data.shape[:2]
 
         if isinstance(shape, int):
             shape = (shape,)
 
-        return self.__class__(numpy.zeros((D,P) + shape))
+        return cls(numpy.zeros((D,P) + shape))
 
     def zeros_like(self):
         return self.__class__(numpy.zeros_like(self.data))
